@@ -62,6 +62,8 @@ func genPayload(r *vm.Rand) []byte {
 		n = maxPayload
 	case 3:
 		n = maxPayload - 1
+	case 4: // any legal length: the short lengths below leave 300..4084 out
+		n = r.Intn(maxPayload + 1)
 	default:
 		n = r.Intn(300)
 	}
@@ -128,6 +130,9 @@ func checkFrames(c *vm.Ctx, r *vm.Rand) {
 		if bytes.IndexByte(frames[i].payload, 0) >= 0 {
 			c.Cover("frame.payload-with-nul")
 		}
+		if n := len(frames[i].payload); n >= 300 && n < maxPayload-1 {
+			c.Cover("frame.payload-300..4084")
+		}
 	}
 	// read the concatenation back under a random delivery plan
 	plan := []int{r.Range(1, 7), r.Range(1, 3), r.Range(1, 5000)}
@@ -157,7 +162,9 @@ func checkFrames(c *vm.Ctx, r *vm.Rand) {
 }
 
 func checkBounds(c *vm.Ctx, r *vm.Rand) {
-	for _, declared := range []int32{-1, -1 << 31, 0, 1, 9, 10, 11, 4095, 4096, 4097, 5000, 1<<31 - 1} {
+	for _, declared := range []int32{-1, -1 << 31, 0, 1, 9, 10, 11, 4095, 4096, 4097, 5000, 1<<31 - 1,
+		// illegal as a whole, legal in the low 8, 12 or 16 bits, or legal in absolute value
+		2, 3, 4, 5, 6, 7, 8, 256 + 4096, 65536 + 10, 1<<16 | 4096, 1<<24 | 100, -1<<31 | 100, -10, -100, -4096} {
 		// a body of exactly `declared` bytes where that is feasible, else a short plausible body
 		bodyLen := int(declared)
 		if declared < 0 || declared > 6000 {
@@ -185,6 +192,14 @@ func checkBounds(c *vm.Ctx, r *vm.Rand) {
 			c.Cover("bounds.accepted")
 		} else {
 			c.Cover("bounds.rejected")
+			switch {
+			case declared >= 2 && declared <= 8:
+				c.Cover("bounds.rejected.2..8")
+			case declared < 0 && declared >= -4096:
+				c.Cover("bounds.rejected.small-negative")
+			case declared > 4096 && declared&0xffff >= 10 && declared&0xffff <= 4096:
+				c.Cover("bounds.rejected.low-bits-legal")
+			}
 		}
 	}
 }
@@ -367,7 +382,9 @@ func scripted(c *vm.Ctx, r *vm.Rand) {
 		return
 	}
 	defer ln.Close()
-	mode := []string{"wrong-id", "wrong-type", "correct", "id-minus-one"}[r.Intn(4)]
+	mode := []string{"wrong-id", "wrong-type", "correct", "id-minus-one", "login-wrong-id"}[r.Intn(5)]
+	loginVariant := r.Intn(4)
+	var loginID, loginAnswer int32 // written by the server goroutine, read after wg.Wait
 	var wg sync.WaitGroup
 	wg.Add(1)
 	go func() {
@@ -380,6 +397,16 @@ func scripted(c *vm.Ctx, r *vm.Rand) {
 		s := &mcnet.RCONConn{Conn: raw}
 		id, _, _, err := s.ReadPacket()
 		if err != nil {
+			return
+		}
+		if mode == "login-wrong-id" {
+			// neither the id in use nor -1: the third outcome of the handshake
+			wrong := []int32{id + 1, 0, id ^ 0x01000000, -id}[loginVariant]
+			if wrong == id || wrong == -1 {
+				wrong = id ^ 0x00010000
+			}
+			loginID, loginAnswer = id, wrong
+			s.WritePacket(wrong, 2, "")
 			return
 		}
 		s.WritePacket(id, 2, "")
@@ -417,6 +444,18 @@ func scripted(c *vm.Ctx, r *vm.Rand) {
 	}
 	wg.Wait()
 	c.Eval(vm.HashStr("scripted", mode, fmt.Sprint(r.Uint64())), true)
+	if mode == "login-wrong-id" {
+		if pan {
+			return
+		}
+		if derr == nil {
+			c.Violation("login/accepted-under-foreign-id", fmt.Sprintf("DialRCON reported success although its login (id %d) was answered under id %d", loginID, loginAnswer),
+				map[string]any{"scripted_server": mode, "login_id": loginID, "answer_id": loginAnswer, "answer_type": 2})
+			return
+		}
+		c.Cover("login.rejected.foreign-id")
+		return
+	}
 	if pan || derr != nil {
 		if derr != nil {
 			c.Violation("scripted/login", "login against the scripted server failed: "+derr.Error(), wit())
@@ -461,6 +500,10 @@ func run(c *vm.Ctx) {
 	}
 	for i := 0; i < c.Scale(200, 4000); i++ {
 		scripted(c, sr)
+	}
+	dr := c.Rand("direct-ids")
+	for i := 0; i < c.Scale(3000, 60000); i++ {
+		directIDs(c, dr)
 	}
 	pr := c.Rand("peer")
 	for i := 0; i < c.Scale(300, 6000); i++ {
